@@ -102,6 +102,27 @@ func vecReplay(in io.Reader, raw bool, args []string) (*Summary, error) {
 					sum.viol("Map", c, "Map/Vectorize element %d", i)
 				}
 			}
+			// Map(f, xs)[i] = f(xs[i]) for every element on its own: also for runs of equal values, for +0 next to -0 (equal,
+			// yet told apart by 1/x and Copysign)
+			{
+				nz := math.Copysign(0, -1)
+				xs2 := append(append([]float64{0, nz, nz, 0, 2.5, 2.5}, got...), 0, nz)
+				for _, h := range []func(float64) float64{
+					func(x float64) float64 { return 1 / x },
+					func(x float64) float64 { return math.Copysign(3, x) },
+				} {
+					want := make([]float64, len(xs2))
+					for i, x := range xs2 {
+						want[i] = h(x)
+					}
+					m2 := vec.Map(h, xs2)
+					v2 := vec.Vectorize(h)(xs2)
+					sum.Checks++
+					if !bitsEqual(m2, want) || !bitsEqual(v2, want) {
+						sum.viol("Map", c, "Map/Vectorize over %v: %v / %v want %v (f applied to every element)", xs2, m2, v2, want)
+					}
+				}
+			}
 			// one vectorized function used repeatedly on inputs of the same length: every result is a value of its own
 			g := vec.Vectorize(f)
 			r1 := g(got)
